@@ -98,6 +98,7 @@ func (b *bareBackend) ServeHTTP(w http.ResponseWriter, r *http.Request) {
 // with exactly one terminal disposition; error code and message survive (C04).
 func hC03Pipe() {
 	refStrictCompressed = true // every peer here is well-formed
+	defer func() { refStrictCompressed = false }() // (the native twin runs many cases in one process)
 	pipeSliceCount = 4
 	cfg, ok := pickPipeCfg()
 	pipeSliceCount = 3
